@@ -109,7 +109,7 @@ def execute(scen, policy="FIFO", schedule=None, expect=None, kill=None, keep_dir
                                "unsatisfied": j.unsatisfied} for j in world.jobs]
 
     r, hub, world = V.run_world(wrapped, at_end=at_end, schedule={int(k): v for k, v in (schedule or {}).items()}, policy=policy,
-                                fine=bool(scen.get("fine")), kill=killspec, on_step=on_step, expect_widths=expect,
+                                fine=(scen.get("fine") if scen.get("fine") in (True, "token") else False), kill=killspec, on_step=on_step, expect_widths=expect,
                                 keep_dir=keep_dir, max_steps=scen.get("max_steps", 20000))
     return r
 
@@ -225,7 +225,7 @@ class Search:
         for sch in base_schedules:
             base = self.pool.map("engines.explore:run_item", [{"scen": dict(scen, restart=None), "policy": policy, "schedule": sch, "props": []}])[0]
             n = len(base["widths"])
-            items = [{"scen": scen, "policy": policy, "schedule": sch, "kill": {"step": k, "pid": 1}, "props": self.props} for k in range(n + 1)]
+            items = [{"scen": scen, "policy": policy, "schedule": sch, "kill": {"step": k, "pid": scen.get("kill_pid", 1)}, "props": self.props} for k in range(n + 1)]
             outs = self.pool.map("engines.explore:run_item", items)
             self.executions += len(items) + 1
             frontier = []
